@@ -8,6 +8,7 @@ partial def storeLoop (h : IO.FS.Stream) (out : IO.FS.Stream) (st : StoreSt) : I
   if line.isEmpty then return ()
   let (st', outs) := storeLine st line
   for o in outs do out.putStrLn o
+  out.flush
   storeLoop h out st'
 
 partial def mcLoop (h : IO.FS.Stream) (out : IO.FS.Stream) (st : McSt) : IO Unit := do
@@ -15,6 +16,7 @@ partial def mcLoop (h : IO.FS.Stream) (out : IO.FS.Stream) (st : McSt) : IO Unit
   if line.isEmpty then return ()
   let (st', outs) := mcLine st line
   for o in outs do out.putStrLn o
+  out.flush
   mcLoop h out st'
 
 partial def simLoop (h : IO.FS.Stream) (out : IO.FS.Stream) (st : SimSt) : IO Unit := do
@@ -22,6 +24,7 @@ partial def simLoop (h : IO.FS.Stream) (out : IO.FS.Stream) (st : SimSt) : IO Un
   if line.isEmpty then return ()
   let (st', outs) := simLine st line
   for o in outs do out.putStrLn o
+  out.flush
   simLoop h out st'
 
 def main (args : List String) : IO UInt32 := do
